@@ -17,6 +17,7 @@
     data.  The real-analysis core (Gram matrices and diagonally dominant symmetric matrices are positive
     semi-definite, over nat-indexed finite sums) follows C06/ProofsPsd.v. *)
 From Coq Require Import List ZArith QArith Qreals Reals Lra Lia Bool Arith.
+From Bignums Require Import BigZ.
 From LinfaVerif Require Import Common.QF Common.LDL.
 Import ListNotations.
 
@@ -44,6 +45,21 @@ Definition psd_certZ (n : nat) (KZ LZ : list (list Z)) (f dz : Z) : bool :=
   rectb n n KZ && rectb n n LZ && (0 <=? f)%Z && symZb n KZ &&
   forallb (ddrow dz) (combine (seq 0 n) (resid f KZ LZ)).
 
+(** the same computation on machine-word integers (Bignums BigZ; vm_compute multiplies those natively, where Z
+    is a binary list): this is the version that is run, proved equal to [psd_certZ] below *)
+Fixpoint Bdotl (a b : list bigZ) : bigZ :=
+  match a, b with x :: a', y :: b' => (x * y + Bdotl a' b')%bigZ | _, _ => 0%bigZ end.
+Definition Bsumabs (l : list bigZ) : bigZ := fold_right (fun x acc => (BigZ.abs x + acc)%bigZ) 0%bigZ l.
+Definition residB (f : bigZ) (KB LB : list (list bigZ)) : list (list bigZ) :=
+  zipw (fun ki li => zipw (fun kij lj => (kij - f * Bdotl li lj)%bigZ) ki LB) KB LB.
+Definition ddrowB (dz : bigZ) (ie : nat * list bigZ) : bool :=
+  let d0 := nth (fst ie) (snd ie) 0%bigZ in
+  BigZ.leb (Bsumabs (snd ie) - BigZ.abs d0)%bigZ (d0 + dz)%bigZ.
+Definition psd_certB (n : nat) (KZ LZ : list (list Z)) (f dz : Z) : bool :=
+  rectb n n KZ && rectb n n LZ && (0 <=? f)%Z && symZb n KZ &&
+  forallb (ddrowB (BigZ.of_Z dz))
+          (combine (seq 0 n) (residB (BigZ.of_Z f) (map (map BigZ.of_Z) KZ) (map (map BigZ.of_Z) LZ))).
+
 (** scaling the rational data to integers: L by its largest denominator DL, K and dq by D >= DL^2 *)
 Definition psd_cert (n : nat) (K L : list (list Q)) (dq : Q) : bool :=
   let DL := maxden L in
@@ -54,7 +70,53 @@ Definition psd_cert (n : nat) (K L : list (list Q)) (dq : Q) : bool :=
   let f := (Zpos D / Zpos (DL * DL))%Z in
   scaledb DL LZ L && scaledb D KZ K && scaled_entry D dz dq &&
   (f * Zpos (DL * DL) =? Zpos D)%Z &&
-  psd_certZ n KZ LZ f dz.
+  psd_certB n KZ LZ f dz.
+
+(** [psd_certB] computes [psd_certZ] *)
+Lemma Bdotl_eq : forall a b, BigZ.to_Z (Bdotl a b) = Zdotl (map BigZ.to_Z a) (map BigZ.to_Z b).
+Proof.
+  induction a as [|x a IH]; intros [|y b]; simpl; auto.
+  rewrite BigZ.spec_add, BigZ.spec_mul, IH. reflexivity.
+Qed.
+
+Lemma Bsumabs_eq : forall l, BigZ.to_Z (Bsumabs l) = Zsumabs (map BigZ.to_Z l).
+Proof.
+  induction l as [|x l IH]; [reflexivity|].
+  change (Bsumabs (x :: l)) with (BigZ.abs x + Bsumabs l)%bigZ.
+  rewrite BigZ.spec_add, BigZ.spec_abs, IH. reflexivity.
+Qed.
+
+Lemma residB_eq f KB LB :
+  map (map BigZ.to_Z) (residB f KB LB) = resid (BigZ.to_Z f) (map (map BigZ.to_Z) KB) (map (map BigZ.to_Z) LB).
+Proof.
+  unfold residB, resid. generalize LB at 1 3 as LB0. revert LB.
+  induction KB as [|ki KB IH]; intros [|li LB] LB0; cbn [zipw map]; auto.
+  rewrite IH. f_equal. clear IH.
+  revert LB0. induction ki as [|kij ki IHk]; intros [|lj LB0]; cbn [zipw map]; auto.
+  rewrite IHk, BigZ.spec_sub, BigZ.spec_mul, Bdotl_eq. reflexivity.
+Qed.
+
+Lemma ddrowB_eq dz i r : ddrowB dz (i, r) = ddrow (BigZ.to_Z dz) (i, map BigZ.to_Z r).
+Proof.
+  unfold ddrowB, ddrow. cbn [fst snd].
+  rewrite BigZ.spec_leb, BigZ.spec_sub, BigZ.spec_add, BigZ.spec_abs, Bsumabs_eq.
+  change 0%Z with (BigZ.to_Z 0%bigZ). rewrite (map_nth BigZ.to_Z). reflexivity.
+Qed.
+
+Lemma forallb_combine_map {A B C} (g : B -> C) (p : A * C -> bool) (q : A * B -> bool) :
+  (forall a b, q (a, b) = p (a, g b)) ->
+  forall (s : list A) (l : list B), forallb q (combine s l) = forallb p (combine s (map g l)).
+Proof.
+  intros H. induction s as [|a s IH]; intros [|b l]; simpl; auto. rewrite H, IH. reflexivity.
+Qed.
+
+Lemma psd_certB_eq n KZ LZ f dz : psd_certB n KZ LZ f dz = psd_certZ n KZ LZ f dz.
+Proof.
+  unfold psd_certB, psd_certZ. f_equal.
+  rewrite (forallb_combine_map (map BigZ.to_Z) (ddrow (BigZ.to_Z (BigZ.of_Z dz))) (ddrowB (BigZ.of_Z dz)))
+    by (intros; apply ddrowB_eq).
+  rewrite residB_eq, !B2Zm_of_Z, !BigZ.spec_of_Z. reflexivity.
+Qed.
 
 (* ------------------------------------------------------------------------------------------ *)
 Local Open Scope R_scope.
@@ -378,6 +440,7 @@ Proof.
   set (dz := toZ D dq) in *. set (f := (Z.pos D / Z.pos (DL * DL))%Z) in *.
   apply andb_true_iff in H as [H Hc]. apply andb_true_iff in H as [H _].
   apply andb_true_iff in H as [H Hdz]. apply andb_true_iff in H as [_ HKs].
+  rewrite psd_certB_eq in Hc.
   pose proof (psd_certZ_sound n KZ LZ f dz Hc (fun i => nth i x 0)) as P.
   assert (HD : 0 < IZR (Zpos D)) by (apply (IZR_lt 0); reflexivity).
   (* shapes *)
